@@ -336,7 +336,7 @@ def judge_attempt(sr, inp, res):
         if res.get("wf_bb"):
             sr.spec_failure(SIG_EBLIF_BB, brief, "returned structure is not well-formed: %d pin(s) still connected to wires of cables that were removed from their definition" % res["wf_bb"])
         if res["wf"]:
-            sig = "%s.parse.returns_malformed.%s" % (fmt, "+".join(x.replace(" ", "_") for x in res["wf"][:3]))
+            sig = "%s.parse.returns_malformed.%s" % (fmt, res["wf"][0].replace(" ", "_"))
             sr.spec_failure(sig, brief, "returned structure is not well-formed: %s" % res["wf"])
         if kind == "retarget":
             ref = c.get("ref", "ref")
